@@ -1094,19 +1094,24 @@ BRIDGE_GROUPS = {
              "alignL_step", "foldSizeDyn_step", "foldSizeDyn_last", "iter_untranslatable_none"],
     "vec": ["vec_align", "vec_minSize", "vec_size", "vec_slots", "vec_viewLen", "vec_untranslatable_none"],
     "str": ["str_align", "str_minSize", "str_size", "str_viewLen", "str_untranslatable_none"],
-    "flex": ["flex_align", "flex_minSize", "flex_viewLen", "flex_validate_floor", "flex_size_term", "flex_size_last", "flex_seal_and_fill", "flex_untranslatable_none"],
+    "flex": ["flex_align", "flex_minSize", "flex_viewLen", "flex_validate_floor", "flex_size_term", "flex_size_last", "flex_untranslatable_none"],
+    "flex_fill": ["flex_seal_and_fill", "flex_untranslatable_none"],
     "macro": ["ustruct_minSize", "sstruct_size", "uenum_minSize", "minList_step", "ustruct_lastFieldOffset_and_size", "ustruct_viewLen", "ustruct_validate_floor",
               "uenum_viewLen", "senum_dataOffset", "validate_and_init_floors", "macro_untranslatable_none"],
     "portable": ["portable_table_ok"],
     # decision points: condition, error kind and error position of each refusal, extracted from the source
-    "guards": ["guard_checkAlignMin", "guard_vecValidate", "guard_strValidate", "guard_vecFromArray", "guard_flexSlotAlign", "guard_flexSlot",
-               "guard_flexFillRoom", "guard_flexFillSeal", "guard_flexPushSeal", "guards_untranslatable_none"],
+    # (split by what the decision point belongs to, so that a change to an emplacer's test does not touch the validation properties)
+    "guards": ["guard_checkAlignMin", "guard_vecValidate", "guard_strValidate", "guard_flexSlotAlign", "guard_flexSlot", "guards_untranslatable_none"],
+    "guards_emplace": ["guard_checkAlignMin", "guard_vecFromArray", "guard_flexFillRoom", "guard_flexFillSeal", "guards_untranslatable_none"],
+    "guards_push": ["guard_flexPushSeal", "guards_untranslatable_none"],
 }
 LAYOUT = ["arith", "iter", "vec", "str", "flex", "macro", "guards"]
+EMPLACE = LAYOUT + ["guards_emplace", "flex_fill"]
 BRIDGE_OF = {
-    "C01": LAYOUT, "C02": LAYOUT, "C03": LAYOUT, "C04": LAYOUT, "C05": LAYOUT, "C06": LAYOUT, "C07": LAYOUT, "C10": LAYOUT,
-    "C11": ["arith", "vec", "str"], "C12": ["arith", "flex", "guards"], "C13": ["arith", "vec", "str", "flex", "guards"], "C14": LAYOUT, "C15": LAYOUT,
-    "C16": ["portable"], "C17": LAYOUT, "C18": LAYOUT, "C19": ["arith", "iter", "macro", "vec", "flex", "guards"], "C20": LAYOUT, "C08": [], "C09": [],
+    "C01": LAYOUT, "C02": LAYOUT, "C03": EMPLACE, "C04": LAYOUT, "C05": LAYOUT, "C06": LAYOUT, "C07": LAYOUT, "C10": LAYOUT,
+    "C11": ["arith", "vec", "str"], "C12": ["arith", "flex", "flex_fill", "guards", "guards_emplace", "guards_push"],
+    "C13": ["arith", "vec", "str", "flex", "flex_fill", "guards", "guards_emplace", "guards_push"], "C14": EMPLACE, "C15": EMPLACE,
+    "C16": ["portable"], "C17": EMPLACE, "C18": EMPLACE, "C19": ["arith", "iter", "macro", "vec", "flex", "guards"], "C20": EMPLACE, "C08": [], "C09": [],
 }
 def regenerate_formulas():
     rc, out = sh([sys.executable, os.path.join(VERIF, "tools", "extract_formulas.py")], env={"VERIF_REPO": REPO})
@@ -1115,7 +1120,7 @@ def regenerate_formulas():
 def lean_obligations(prop, cfg, thorough):
     """returns (list of dict(name, ok, axioms, detail), log)"""
     res = []
-    bridge = [f"FV.Bridge.{t}" for g in BRIDGE_OF.get(prop, []) for t in BRIDGE_GROUPS[g]]
+    bridge = list(dict.fromkeys(f"FV.Bridge.{t}" for g in BRIDGE_OF.get(prop, []) for t in BRIDGE_GROUPS[g]))
     tr_ok, tr_out = regenerate_formulas()
     ok_build, out = build_lean([cfg["module"], "fvdriver"])
     bridge_ok, bridge_out = (True, "")
